@@ -1099,15 +1099,15 @@ class Server(utils.EventEmitter):
                 # We need to truncate
                 attribute_value = attribute_value[:max_attribute_size]
 
-            # Check if there is enough space
+            # Check if there is enough space (the last value may be truncated)
+            if pdu_space_available < 2:
+                break
+            attribute_value = attribute_value[: pdu_space_available - 2]
             entry_size = 2 + len(attribute_value)
 
             # Add the attribute to the list
             length_value_tuple_list.append((length, attribute_value))
             pdu_space_available -= entry_size
-
-            if pdu_space_available <= 0:
-                break
 
         response = att.ATT_Read_Multiple_Variable_Response(
             length_value_tuple_list=length_value_tuple_list
